@@ -178,7 +178,9 @@ def run(chk):
                 "the ORDERED module list of every build; oracle: app first, no duplicates, every module from the nearest defining "
                 "context; metamorphic: deleting an optional dependency that cannot resolve leaves module lists and ninja file unchanged; "
                 "non-trivial = a configured build has a failed optional / active if-then / provider / conflict feature; distinct by project hash")
-    results = projcheck.campaign(chk, PROF, n, OBS, oracle, nontrivial)
+    from . import grafts
+    extra = [grafts.conflict_backout(projgen.gen_project(chk.seed + 1260, i, PROF), i) for i in range(16 if chk.tier == "quick" else 400)]
+    results = projcheck.campaign(chk, PROF, n, OBS, oracle, nontrivial, extra_projects=extra)
     # metamorphic: an optional dependency that cannot be resolved leaves the build as if it had not been written
     pairs = []
     for p, r, m in results:
